@@ -37,7 +37,10 @@ def load_mutants(pid):
                     mj = json.load(open(meta))
                 except ValueError:
                     continue
-                if mj.get("property") == pid:
+                if mj.get("property") == pid and mj.get("declined"):
+                    # a change the check deliberately does not decide (reason in meta.json and DESIGN.md): replayed and listed, never counted as fired
+                    out.append({"id": "seeded-" + name, "kind": "declined", "desc": "declined: " + mj["declined"], "edits": [], "patch": patch})
+                elif mj.get("property") == pid:
                     out.append({"id": "seeded-" + name, "kind": "seed", "desc": "independent seeded change " + name, "edits": [], "patch": patch})
     # compound seeds (/verif/seeded/compound.json): a behaviour-preserving variant with one defect planted INSIDE the refactored code (the
     # helper, property, record class or module-level function the canonicaliser has to see through): the property's rules must still fire
@@ -135,7 +138,7 @@ def run_selftest(pid, seed=0, root=None, jobs=None, verbose=False):
     finally:
         shutil.rmtree(parent, ignore_errors=True)
     out = {"seeds_applied": 0, "seeds_fired": 0, "controls_applied": 0, "controls_silent": 0, "skipped": [], "blind": [], "noisy": [],
-           "analysis_error": [], "detail": []}
+           "analysis_error": [], "declined": [], "detail": []}
     for m in sorted(muts, key=lambda m: m["id"]):
         status, why, viol = res.get(m["id"], ("skipped", "not run", []))
         if verbose:
@@ -143,7 +146,9 @@ def run_selftest(pid, seed=0, root=None, jobs=None, verbose=False):
         if status == "skipped":
             out["skipped"].append({"id": m["id"], "why": why})
             continue
-        if m["kind"] == "seed":
+        if m["kind"] == "declined":
+            out["declined"].append({"id": m["id"], "why": m["desc"], "status": status})
+        elif m["kind"] == "seed":
             out["seeds_applied"] += 1
             if status == "fired":
                 out["seeds_fired"] += 1
